@@ -39,22 +39,24 @@ class Lexer(object):
     t_FALSE = "False"
     t_LBRACK = r"\["
     t_LPAREN = r"\("
-    t_PLAIN_STRING = r"[^\#\:\,\=\(\)\[\]\"\'\r\n]+"
     t_RBRACK = r"\]"
     t_RPAREN = r"\)"
     t_TRUE = "True"
 
     @TOKEN(r"[a-zA-Z_][a-zA-Z_0-9]*")
     def t_ID(self, t):
+        t.endlexpos = t.lexer.lexpos
         return t
 
     @TOKEN(r"[\-\+]?((\d+\.\d*)|(\.\d+))([eE][\+\-]?\d+)?")
     def t_FLOAT(self, t):
+        t.endlexpos = t.lexer.lexpos
         t.value = float(t.value)
         return t
 
     @TOKEN(r"[\-\+]?\d+")
     def t_INT(self, t):
+        t.endlexpos = t.lexer.lexpos
         t.value = int(t.value)
         return t
 
@@ -66,6 +68,11 @@ class Lexer(object):
     @TOKEN(r"[\r\n]+")
     def t_newline(self, t):
         t.lexer.lineno += len(t.value)
+
+    @TOKEN(r"[^\#\:\,\=\(\)\[\]\"\'\r\n]+")
+    def t_PLAIN_STRING(self, t):
+        t.endlexpos = t.lexer.lexpos
+        return t
 
     def t_error(self, t):
         raise SyntaxError("Illegal character {0} at position {1}".format(t.value[0], t.lexpos))
@@ -171,7 +178,7 @@ class Parser(object):
                      | ID
         """
 
-        p[0] = p[1]
+        p[0] = p[1].rstrip()
 
     def p_plain_string_with_number(self, p):
         """
@@ -181,7 +188,8 @@ class Parser(object):
                      | ID plain_string
         """
 
-        p[0] = str(p[1]) + p[2]
+        # Use the text exactly as written: the token values have lost inner whitespace and the spelling of numbers
+        p[0] = p.lexer.lexdata[p.lexpos(1) : p.lexspan(2)[1]].rstrip()
 
     def p_permissive_plain_string(self, p):
         """
@@ -195,7 +203,7 @@ class Parser(object):
         permissive_plain_string : permissive_plain_string COLON permissive_plain_string
         """
 
-        p[0] = p[1] + ":" + p[3]
+        p[0] = p.lexer.lexdata[p.lexspan(1)[0] : p.lexspan(3)[1]].rstrip()
 
     def p_number(self, p):
         """
